@@ -29,7 +29,8 @@ TARGETS = [
     Target('abo', H, r'uint64_t aligned_begin_offset\(\) const', rules=[
         fields_rule(['abegin']), (r'(?<![\w>.])multiply\((.*?)\)', r'D_multiply(this, \1, 0)', 1)]),
     Target('aeo', H, r'uint64_t aligned_end_offset\(\) const', rules=[
-        fields_rule(['aend']), (r'(?<![\w>.])multiply\((.*?)\)', r'D_multiply(this, \1, 0)', 1)]),
+        fields_rule(['aend', 'apend', 'abegin', 'apbegin', 'end_remainder', 'begin_remainder']), (r'(?<![\w>.])multiply\((.*?)\)', r'D_multiply(this, \1, 0)', 1),
+        (r'(?<![\w>.])get_length\(', r'D_get_length(this, ', 0)]),
     # ---- range_split (general interval)
     Target('fixed_divide', H, r'void divide\(uint64_t x, uint64_t& round_down, uint64_t& remainder,\s*uint64_t& round_up\) const',
            index=1, count=3, rules=REFS + [fields_rule(['interval'], min_fires=3)]),
